@@ -1,0 +1,16 @@
+// Project Name: OpenMEEG (http://openmeeg.github.io)
+// Verification hooks (add-only instrumentation). With OPENMEEG_VERIF undefined (the default) every macro below
+// expands to nothing. With it defined, a marker calls a weak function that a test harness may provide; when no
+// harness is linked the function pointer is null and the marker does nothing.
+
+#pragma once
+
+#ifdef OPENMEEG_VERIF
+extern "C" {
+    // Called as the first statement of the body of the parallel loop `loop` for the loop element with unknown index `index`.
+    void om_verif_iter(int loop,unsigned index) __attribute__((weak));
+}
+#define OM_VERIF_ITER(loop,index) do { if (om_verif_iter) om_verif_iter((loop),(index)); } while (0)
+#else
+#define OM_VERIF_ITER(loop,index)
+#endif
